@@ -282,7 +282,8 @@ def plan():
             tw = ("unpaired", "nogeo") if min(n_ann, n_pred) == 0 else ("paired", "unpaired", "nogeo")
             big = n_ann + n_pred >= 3
             obs.append(Ob("clip-a%dp%d" % (n_ann, n_pred), ob_clip, "real", 9000 if big else 1800,
-                          dict(n_ann=n_ann, n_pred=n_pred), ("thorough",) if big else q, twins=tw, twin_timeout=600))
+                          dict(n_ann=n_ann, n_pred=n_pred), ("thorough",) if (big and (n_ann, n_pred) != (1, 2)) else q,
+                          twins=tw, twin_timeout=600))
     for (n_ann, n_pred) in ((1, 1), (0, 1), (2, 1)):
         obs.append(Ob("full-pipeline-a%dp%d" % (n_ann, n_pred), ob_clip, "real", 1800,
                       dict(n_ann=n_ann, n_pred=n_pred, stub_run_metrics=False), q if n_ann < 2 else ("thorough",),
